@@ -1,6 +1,7 @@
 /-
 Executable mirror of `space_packet_parser/xarr.py`: dtype selection and the per-APID accumulation of
-`create_dataset` (after the `fix:` commit that tests for enumerated types before numeric encodings — DESIGN.md §8-15).
+`create_dataset` (after the `fix:` commits that test for enumerated types before numeric encodings and keep MIL-STD-1750A floats out of
+float32 — DESIGN.md §14).
 numpy's conversion of Python values into arrays of the chosen dtype is *not* modelled here (trusted / validated).
 -/
 import Spp.Model.Definition
@@ -18,7 +19,7 @@ deriving DecidableEq, Repr
 /-- `_min_dtype_for_encoding` -/
 def minDtypeForEncoding : Encoding → DType
   | .num e =>
-    if e.isFloat then (if e.size == 32 then .float 32 else .float 64)
+    if e.isFloat then (if e.size == 32 && e.encoding != "MILSTD_1750A" then .float 32 else .float 64)
     else
       let w := if e.size ≤ 8 then 8 else if e.size ≤ 16 then 16 else if e.size ≤ 32 then 32 else 64
       if e.encoding == "unsigned" then .uint w else .int w
